@@ -6,6 +6,7 @@ import (
 	"fmt"
 	"go/constant"
 	"go/token"
+	"os"
 	"strings"
 
 	"golang.org/x/tools/go/ssa"
@@ -621,4 +622,17 @@ func ruleC19R6(c *Ctx) {
 	for _, s := range c.callsTo(fn, func(f *ssa.Function) bool { return isAnchor(f, aCountPass, aCountDrop) }) {
 		c.check(s.Common().Args[0] == sel[0].Value(), "C19.R6", fn, "pass/drop counted on the selected key set's counter", s.Pos(), "receiver is SelectMetricKeySet's result", "pass/drop are counted on a counter that was not selected for this record")
 	}
+}
+
+func init() {
+	register("F6DUMP", "dump", func(c *Ctx) {
+		var fns []*ssa.Function
+		sel := os.Getenv("SLOGCHECK_F6SEL")
+		for _, fn := range c.P.universe {
+			if sel == "" || strings.Contains(anchorName(fn), sel) {
+				fns = append(fns, fn)
+			}
+		}
+		dumpF6(c, fns)
+	})
 }
